@@ -158,9 +158,66 @@ theorem C13_full_info_sums (pagesize : Nat) (st : Statm) (ms : List Mapping) (ro
 
 /-- **C13_rollup_agrees.** The roll-up file (field-wise sums of the kB keys) gives the same
     three figures as the per-mapping listing. -/
-theorem C13_rollup_agrees (ms : List Mapping) (hne : ms ≠ []) (hwf : wfSmaps false ms = true)
-    (hu : uniformUnits ms = true) :
-    parseSmapsRollup cfg (renderRollup (rollupKeysOf ms) ms) = .ok (parseSmaps cfg (renderSmaps ms)) :=
-  rollup_agrees cfg cfg_good ms hne hwf hu
+theorem C13_rollup_agrees (ms : List Mapping) (hne : ms ≠ []) (hwf : wfSmaps false ms = true) :
+    parseSmapsRollup cfg (renderRollup (rollupKeysOf ms) ms) = .ok (parseSmaps cfg (renderSmaps ms))
+      ∧ parseSmaps cfg (renderSmaps ms) = specFull ms := by
+  refine ⟨rollup_agrees cfg cfg_good ms hne hwf, ?_⟩
+  cases ms with
+  | nil => exact absurd rfl hne
+  | cons m ms' =>
+    obtain ⟨hK, hnd, hw⟩ := wfSmaps_spec hwf
+    exact parseSmaps_rendered cfg cfg_good _ hK hnd m ms' hw
+
+/-! ## non-vacuity, and the two places where the code's behaviour matters -/
+
+/-- a mapping of a file whose name ends in a blank (`/tmp/x `) -/
+def mBlank : Mapping :=
+  { lo := 4096, hi := 8192, r := true, w := false, x := false, shared := false, off := 0, maj := 8,
+    min := 1, ino := 7, path := some [47, 116, 109, 112, 47, 120, 32], deleted := false,
+    kv := [⟨[83, 119, 97, 112], 7, true⟩], flags := none }
+
+example : wfSmaps false [mBlank] = true ∧ ∀ probe, fsConsistent probe mBlank = true := by
+  refine ⟨by decide, fun probe => rfl⟩
+
+/-- a `memory_maps` that strips the decoded name (psutil ≤ 7.0.0) -/
+def stripCfg : Cfg := { cfg with stripsPath := true }
+
+/-- **The full statement is false for the stripping code**: the file `/tmp/x ` (a well-formed
+    input of `C13_maps_roundtrip`) is reported as `/tmp/x`. -/
+theorem C13_trailing_blank_counterexample (probe : Bytes → Probe) (zombie : Bool) :
+    memoryMaps stripCfg probe zombie (renderSmaps [mBlank]) ≠ .ok ([mBlank].map specRow) := by
+  have hw : ∀ x ∈ [mBlank], WfM false [[83, 119, 97, 112]] x := by
+    intro x hx
+    simp only [List.mem_singleton] at hx
+    subst hx
+    exact wfMapping_spec (by decide)
+  rw [memoryMaps_eq_blocks stripCfg probe zombie _ (by decide) mBlank [] hw]
+  have hkv : ∀ e ∈ mBlank.kv, wfKey e.key = true := by decide
+  have h1 := blocks_kvs stripCfg probe mBlank.kv [] (headerLine mBlank) [] hkv
+  simp only [restLines, tailLinesLast, flagLinesLast, mBlank, List.append_nil] at h1 ⊢
+  rw [h1]
+  have hs := split_header_path mBlank [47, 116, 109, 112, 47, 120, 32] rfl 47 [116, 109, 112, 47, 120, 32] rfl (by decide)
+  simp only [blocks, mkRow, mBlank] at hs ⊢
+  rw [hs]
+  intro h
+  have hp : fixPath stripCfg probe (shownName [47, 116, 109, 112, 47, 120, 32] false) = .ok [47, 116, 109, 112, 47, 120] := rfl
+  simp only [hp] at h
+  have := congrArg (fun r => match r with | Except.ok (r :: _) => r.path | _ => []) h
+  simp [specRow] at this
+
+/-- first figure (rss) of every row, `[]` on error -/
+def firstNums (r : Res (List Row)) : List (Option Nat) :=
+  match r with
+  | .ok rows => rows.map (·.nums.head?)
+  | .error _ => []
+
+/-- **Latent:** `get_blocks` creates its dict once. If two mappings of one file printed different
+    key sets (no kernel does), the second row would inherit the first one's `Rss`. -/
+theorem C13_nonuniform_keys_inherit :
+    firstNums (memoryMaps { cfg with dictPerBlock := false } (fun _ => .missing) false [49, 45, 50, 32, 114, 32, 48, 32, 48, 58, 48, 32, 48, 10, 82, 115, 115, 58, 32, 53, 32, 107, 66, 10, 51, 45, 52, 32, 114, 32, 48, 32, 48, 58, 48, 32, 48, 10, 80, 115, 115, 58, 32, 49, 32, 107, 66, 10])
+        = [some 5120, some 5120]
+      ∧ firstNums (memoryMaps { cfg with dictPerBlock := true } (fun _ => .missing) false [49, 45, 50, 32, 114, 32, 48, 32, 48, 58, 48, 32, 48, 10, 82, 115, 115, 58, 32, 53, 32, 107, 66, 10, 51, 45, 52, 32, 114, 32, 48, 32, 48, 58, 48, 32, 48, 10, 80, 115, 115, 58, 32, 49, 32, 107, 66, 10])
+        = [some 5120, some 0] := by
+  constructor <;> decide
 
 end Psutil.C13
